@@ -316,6 +316,29 @@ VARIANTS = [
      "old": "    def __str__(self):\n        return \"\\n\".join(str(x) for x in self)\n",
      "new": "    def __str__(self):\n        return \"\\n\".join(str(x) for x in self)\n\n"
             "    def names(self):\n        return [x.name for x in self]\n"},
+    # ------------------------------------------------------------------ round 6
+    {"name": "R2 raw line commented out before the pretty printer ran", "file": FMT, "expect": "C11.R2",
+     "edits": [{"file": FMT, "old": "            try:\n                pretty_data = serializer.deserialize(block, var_val, pod=True)\n",
+                "new": "            field_prefix = \"#\"\n            try:\n                pretty_data = serializer.deserialize(block, var_val, pod=True)\n"}]},
+    {"name": "P2 comment prefix chosen in a local before it is applied after the pretty line", "file": FMT, "expect": "silent",
+     "old": "                    # Human-readable version should be used, orig data is commented out\n                    field_prefix = \"#\"\n",
+     "new": "                    # Human-readable version should be used, orig data is commented out\n"
+            "                    comment_marker = \"#\"\n                    field_prefix = comment_marker\n"},
+    {"name": "R7 pending values drained from the end of the sorted list", "file": FMT, "expect": "C11.R7",
+     "old": "            for block, var_name, serializer, val in pending_packed:\n                block[var_name] = serializer.serialize(block, val)\n",
+     "new": "            while pending_packed:\n                block, var_name, serializer, val = pending_packed.pop()\n"
+            "                block[var_name] = serializer.serialize(block, val)\n"},
+    {"name": "P7 pending values drained from the front with pop(0)", "file": FMT, "expect": "silent",
+     "old": "            for block, var_name, serializer, val in pending_packed:\n                block[var_name] = serializer.serialize(block, val)\n",
+     "new": "            while pending_packed:\n                block, var_name, serializer, val = pending_packed.pop(0)\n"
+            "                block[var_name] = serializer.serialize(block, val)\n"},
+    {"name": "R10 TE section separator written before the absent-section early-out", "file": TEMPLATES, "expect": "C11.R10",
+     "old": "        if self._optional and not vals:\n            return\n\n        # NUL needed to mark the start of a field if this isn't the first one\n"
+            "        if not self._first:\n            writer.write_bytes(b\"\\x00\")\n",
+     "new": "        if not self._first:\n            writer.write_bytes(b\"\\x00\")\n        if not vals and self._optional:\n            return None\n"},
+    {"name": "P10 absent-section early-out as a nested guard", "file": TEMPLATES, "expect": "silent",
+     "old": "        if self._optional and not vals:\n            return\n\n        # NUL needed",
+     "new": "        if self._optional:\n            if not vals:\n                return\n\n        # NUL needed"},
     # ------------------------------------------------------------------ documented limits
     {"name": "X wrap width changed (line-wrapping details are value level)", "file": FMT, "expect": "miss",
      "old": "HippoPrettyPrinter(width=100)", "new": "HippoPrettyPrinter(width=40)"},
